@@ -207,3 +207,35 @@ vproof_free! {
         kani::cover!(matches!(d.method, Method::Binv(_, _)), "BINV selected");
     }
 }
+
+// ------------------------------------------------------------------------------------------
+// C03: BTPE, first trial, from concrete (n, p): result <= n and no panic (f64_to_u64 asserts, saturating casts)
+// ------------------------------------------------------------------------------------------
+fn btpe_first_trial(n: u64, p: f64, root_npq: f64) {
+    let mut rng = SymRng::new(2);
+    unsafe { FIXED_SQRT = root_npq; }
+    let d = Binomial::new(n, p).unwrap();
+    let x = d.sample(&mut rng);
+    vassert!(x <= n, "Binomial(BTPE) sample exceeds n");
+    vassert!(rng.pos == 2, "Binomial(BTPE): a trial consumes two words");
+    kani::cover!(x < n / 2, "left half");
+}
+
+//@ id: c03_binomial_btpe
+//@ besteffort: yes
+//@ prop: C03
+//@ tier: thorough
+//@ cap: 1500
+//@ funcs: binomial::btpe (regions 1-4, steps 5.0-5.3); f64_to_u64; Binomial::new; rand Uniform::<f64>
+//@ bounds: (n, p) in {(100, 0.3), (2^40, 0.5)}; every pair of words (u and v symbolic: all four regions); first trial; the step 5.1 walk is bounded by the unwinding assertion (75 steps)
+//@ assumes: f64::ln by contract; f64::sqrt(n p q) fixed to its value (4.58257569495584 resp. 524288), so that all BTPE constants are concrete
+#[kani::proof]
+#[kani::stub(f64::ln, c_ln64)]
+#[kani::stub(f64::sqrt, c_sqrt64_fixed)]
+#[kani::unwind(76)]
+fn c03_binomial_btpe() {
+    let sel: bool = kani::any();
+    if sel { btpe_first_trial(100, 0.3, 4.58257569495584) } else { btpe_first_trial(1 << 40, 0.5, 524288.0) }
+    kani::cover!(sel, "n = 100");
+    kani::cover!(!sel, "n = 2^40");
+}
